@@ -239,7 +239,10 @@ def prec_of(n):
 def target_text(t, rng, style):
     if t[0] == "var":
         return t[1]
-    return t[1] + "[" + join_tokens(tokens(t[2], 0, rng, style), rng, "min" if style != "sp" else "inner") + "]"
+    inner = join_tokens(tokens(t[2], 0, rng, style), rng, "min" if style != "sp" else "inner")
+    if style == "red" and rng.random() < 0.4:          # blanks next to the brackets are fine
+        inner = rng.choice([" ", "  ", "\t"]) + inner + rng.choice([" ", "", "\t "])
+    return t[1] + "[" + inner + "]"
 
 
 def tokens(n, need, rng=None, style="min"):
@@ -320,16 +323,9 @@ def walk(n):
 
 
 def features(n):
-    """defect-class features of a tree (each names a known-finding clause when brush and bash differ)"""
-    fs = set()
-    for m in walk(n):
-        if m[0] == "lit" and lit_value(m[1])[1]:
-            fs.add("literal_overflow_rejected")
-        if m[0] in ("assign", "inc"):
-            t = m[2]
-            if t[0] == "elem" and (m[0] == "inc" or m[1] != "=") and any(q[0] != "lit" and q[0] != "bin" and q[0] != "un" for q in walk(t[2])):
-                fs.add("subscript_evaluated_twice")
-    return fs
+    """defect-class features of a tree (each names a known-finding clause when brush and bash differ);
+    none since literal overflow and double subscript evaluation were repaired"""
+    return set()
 
 
 def num_node(v):
@@ -342,10 +338,7 @@ def num_node(v):
 def gen_lit(rng, all_forms=True):
     n = rng.choice(BOUNDARY + [rng.randrange(0, 100), rng.randrange(0, 1 << 64), rng.randrange(0, 1 << 62)])
     forms = lit_forms(n) if all_forms else [str(n)]
-    f = rng.choice(forms)
-    if lit_value(f)[1]:              # would hit the recorded literal-overflow defect: keep those to their own stream
-        f = "%d#%s" % (16, to_base(n, 16))
-    return ("lit", f)
+    return ("lit", rng.choice(forms))      # overflowing hex/octal/decimal forms included: they wrap, as in bash
 
 
 def gen_target(rng, depth, arrays=True):
@@ -653,18 +646,16 @@ def special_cases(rng, n_malformed):
     for e in ["1 + x = 5", "1 ? 2 : x = 3", "2 * y += 1", "!x = 3", "-x = 3", "1 || x = 2", "0 && x = 2", "x + y = z = 1"]:
         cs.append(("assign_operand", e, {"x": "1", "y": "2"}, "assignment_as_operand_accepted"))
     for e, env in [(" ", {}), ("  \t ", {}), ("x", {"x": " "}), ("x+1", {"x": "\t"}), ("x*y", {"x": "  ", "y": "3"})]:
-        cs.append(("blank", e, env, "blank_expression_rejected"))
+        cs.append(("blank", e, env, None))
     for e in ["A[ 1 ]=5", "A[1 ]=5", "A[ 1]", "A[0]=1, A[ 0 ]+1", "A[1+ 1]=2", "x[ 0 ]"]:
-        cs.append(("subscript_space", e, {"x": "3"}, "space_next_to_subscript_bracket_rejected" if re.search(r"\[\s|\s\]", e) else None))
+        cs.append(("subscript_space", e, {"x": "3"}, None))
     for e in ["A[x++]+=5", "A[x++]++", "++A[x++]", "A[x++]--", "A[x=2]*=3", "A[y=x++]|=1", "A[x++]=5", "A[x]+=5", "B[++x]-=2"]:
-        t = "subscript_evaluated_twice" if re.search(r"\[[^\]]*(\+\+|--|=)[^\]]*\]\s*(\+\+|--|[-+*/%&|^]=|<<=|>>=)|(\+\+|--)\s*\w+\[[^\]]*(\+\+|--|=)", e) else None
-        cs.append(("subscript_twice", e, {"x": "0"}, t))
+        cs.append(("subscript_once", e, {"x": "0"}, None))
     for e in ["0x", "0X", "0x+1", "0x8000000000000000", "0xFFFFFFFFFFFFFFFF", "01000000000000000000000", "18446744073709551616",
               "99999999999999999999", "0x7fffffffffffffff", "0777777777777777777777", "18446744073709551615", "9223372036854775808"]:
-        ov = e in ("0x", "0X", "0x+1") or lit_value(e)[1]
-        cs.append(("literal_edge", e, {}, "literal_overflow_rejected" if ov else None))
+        cs.append(("literal_edge", e, {}, None))
     for v in ["0x8000000000000000", "18446744073709551616", "0x"]:
-        cs.append(("literal_edge", "x+1", {"x": v}, "literal_overflow_rejected"))
+        cs.append(("literal_edge", "x+1", {"x": v}, None))
     # malformed: well-formed renderings with one token removed / duplicated / replaced
     for _ in range(n_malformed):
         t = gen_tree(rng, rng.randint(1, 3))
@@ -694,25 +685,16 @@ def special_cases(rng, n_malformed):
 def clause_for(expr, env, tags, brush, bash):
     """The recorded defect class that explains a brush/bash difference on this case, or None.
     Each clause is identified by the feature that triggers it (text of the expression / variable contents and
-    bash's own diagnosis), so any other divergence stays a VIOLATION."""
+    bash's own diagnosis), so any other divergence stays a VIOLATION.
+    (literal_overflow_rejected, blank_expression_rejected, space_next_to_subscript_bracket_rejected and
+    subscript_evaluated_twice were repaired in brush: a divergence of those kinds is a VIOLATION again.)"""
     texts = [expr] + list(env.values())
     berr = bash[2].lower()
     brush_err = brush[0].startswith("e ")
     bash_err = bash[0].startswith("e ")
-    if "literal_overflow_rejected" in tags and brush_err and not bash_err:
-        return "literal_overflow_rejected"
     if brush_err and not bash_err:
-        for t in texts:
-            for m in re.finditer(r"0[xX][0-9a-fA-F]*|[0-9]+", re.sub(r"[0-9]+#[0-9a-zA-Z@_]+", " ", t)):
-                w = m.group(0)
-                if re.fullmatch(r"0[xX]", w) or (re.fullmatch(r"0[xX][0-9a-fA-F]+|0[0-7]*|[1-9][0-9]*", w) and lit_value(w)[1]):
-                    return "literal_overflow_rejected"
         if any(re.search(r"(?:^|[-+*/%<>=!~&|^?:,(])\s*(--|\+\+)\s*[-+0-9(!~]", t) for t in texts):
             return "double_sign_tokenization"
-        if any(t != "" and t.strip(" \t\n\r") == "" for t in texts):
-            return "blank_expression_rejected"
-        if any(re.search(r"\w\[\s|\s\]", t) for t in texts):
-            return "space_next_to_subscript_bracket_rejected"
     if bash_err and not brush_err and "attempted assignment to non-variable" in berr:
         return "assignment_as_operand_accepted"
     if bash_err and any(re.search(r"[-+*/%<>&|^!~:]\s*[A-Za-z_]\w*(\[[^\]]*\])?\s*([-+*/%&|^]|<<|>>)?=(?!=)", t) for t in texts):
@@ -722,11 +704,6 @@ def clause_for(expr, env, tags, brush, bash):
             any(re.search(r"[\w\])]\s*(--|\+\+)\s*((--|\+\+)\s*)?[\w(]", t) for t in texts):
         # `x -- -- a`, `A[5] -- ++ B[5]`: brush splits a ++/-- standing between two operands into two signs
         return "double_sign_tokenization"
-    if brush_err == bash_err and any(re.search(
-            r"\w\[[^\]]*[a-zA-Z_][^\]]*\]\s*(\+\+|--|[-+*/%&|^]=|<<=|>>=)|(\+\+|--)\s*\w+\[[^\]]*[a-zA-Z_]", t) for t in texts):
-        return "subscript_evaluated_twice"
-    if "subscript_evaluated_twice" in tags:
-        return "subscript_evaluated_twice"
     if "recursion_depth_limit_differs" in tags and bash[0] == "e recursion":
         return "recursion_depth_limit_differs"
     return None
@@ -840,7 +817,7 @@ def run(ctx):
                               dict(case, inproc=he, binary=bres[:2], bash=ores[:2]), kind="property" if prop_fails else "correspondence")
             continue
         # 3. the parse tree is the C-precedence tree the case was rendered from
-        if want is not None and "literal_overflow_rejected" not in tags and hp != "ok " + want:
+        if want is not None and hp != "ok " + want:
             ctx.bucket("tree_mismatch")
             if nviol < 25:
                 nviol += 1
